@@ -5,7 +5,8 @@ ENV = {"GOMAXPROCS": "2", "GOGC": "400"}
 CHECK = {
     "level": "fault_enumeration",
     "assumptions": [
-        "the fake CAS (hand-written blobstore.BlobAccess) hands out bb-storage CAS buffers that verify size and checksum, like a real storage backend; storage faults are one-shot (error, corrupted bytes, truncated bytes, NOT_FOUND) on a chosen read",
+        "the fake CAS (hand-written blobstore.BlobAccess) hands out bb-storage CAS buffers that verify size and checksum, like a remote storage backend; storage faults are one-shot (error, corrupted bytes, truncated bytes, NOT_FOUND) on a chosen read; for file blobs additionally an object that lost its tail served through a NON-validating buffer (buffer.NewValidatedBufferFromReaderAt, as local file/block device storage does): a read of a CAS-backed file must then return exactly the digest's bytes or an error status",
+        "naiveBuildDirectory: an object served short through a non-validating buffer is not an input (no fetcher can notice); cancellation of the caller's context is injected when a chosen file download starts, or with the last downloads held in flight once all have started, against a fake CAS that honours the context (plain BlobAccessFileFetcher, no hard link cache in those cases)",
         "a directory is never renamed into its own subtree (kernel / NFS client reject this before calling the file system; excluded and counted)",
         "VirtualWrite / VirtualRead / VirtualClose are only issued on a leaf that was opened with that share bit (the CAS file panics by design on an un-intercepted write); VirtualWrite is never issued after a refused open",
         "hard links are only made to immutable leaves (CAS files, symlinks); locally created files are not hard linked (keeps the reference model a plain tree)",
@@ -29,7 +30,7 @@ CHECK = {
           {"checks": 6000, "shards": 1, "timeout": 300},
           {"checks": 40000, "shards": 4, "timeout": 1500}, env=ENV),
         T("inputroot", "TestC17NaiveBuildDirectory",
-          None,
+          {"checks": 150, "shards": 1, "timeout": 300},
           {"checks": 1000, "shards": 8, "timeout": 1500}, env=ENV),
     ],
 }
